@@ -679,7 +679,7 @@ func sub(args []string) bool {
 		mrun.RunCell(args[1], pvec, eff, 3, nil)
 		_, eff0, _, _ := inputsFor(t, desc, "all-missing", 3)
 		mrun.RunCell(args[1], pvec, eff0, 3, nil)
-		fmt.Println("ok")
+		fmt.Fprintln(vf.Stdout, "ok")
 		return true
 	}
 	return false
